@@ -38,6 +38,7 @@ FILLERS = [0, 1, 5, 12]
 # line, one frame later; a decoder still counts the pair once)
 BOUNDARY = ["none", "inline"] + [f"own{g}" for g in range(1, 9)] + ["split"]
 FINAL = ["cleared", "never", "flash1", "flash2", "flash3"]
+ITALIC_B = ("none", "inline", "own3", "own6")  # boundary shapes used with captions written in italics
 
 
 def bounds(tier):
@@ -66,10 +67,15 @@ def build(base, sep, doubled, fillers, b1, b2, final, tworows=False):
             # word counter of late words passes 99 (the rows come out as a second caption with the same times)
             for r in (1, 2, 3, 4, 5):
                 load += [C.pac(r, 0)] * d + C.text_words("Up") + [C.chars("b", "b")] * 14
+        elif tworows == "italic":
+            pass  # one row, written in italics (an italic preamble, and a mid-row italics code inside the text)
         elif tworows:
             # a second, non-adjacent row: the caption comes out as two captions sharing its times
             load += [C.pac(1 + i, 0)] * d + C.text_words("Up")
-        load += [C.pac(15 - i, 0)] * d + C.text_words(texts[i]) + [C.chars("b", "b")] * fillers[i]
+        if tworows == "italic":
+            load += [C.pac(15 - i, 0, i != 1)] * d + C.text_words(texts[i]) + ([C.MR_ITALIC] * d if i == 1 else []) + [C.chars("b", "b")] * (fillers[i] + (i == 1))
+        else:
+            load += [C.pac(15 - i, 0)] * d + C.text_words(texts[i]) + [C.chars("b", "b")] * fillers[i]
         b = bnds[i]
         if b is None or b == "none":
             lines.append((cur, load + [C.EOC] * d))
@@ -140,10 +146,10 @@ def simulate(lines, sep, offset_s, copies=1):
     for i, (s, e) in enumerate(cues):
         if e is not None and i + 1 < len(cues):
             gap = cues[i + 1][0] - e
-            if 0 <= gap < 5 * FRAME - 20000:
+            if 0 <= gap < 5 * FRAME - 2:
                 e = cues[i + 1][0]
-            elif gap <= 5 * FRAME + 20000:
-                dontcare = True  # within one frame of exactly five frames
+            elif gap <= 5 * FRAME + 2:
+                dontcare = True  # exactly five frames (to the microsecond): neither "shorter than five frames" nor clearly longer
         out.append((s, e))
     if any(e == 0 for s, e in out if e is not None):
         dontcare = True  # an end floored to zero is read as "never ended"
@@ -172,10 +178,10 @@ def evaluate(case):
     from pycaption.exceptions import CaptionReadTimingError
 
     base, sep, doubled, fillers, b1, b2, final, offset = case[:8]
-    tworows = (case[8] if case[8] == "long" else bool(case[8])) if len(case) > 8 else False
+    tworows = (case[8] if case[8] in ("long", "italic") else bool(case[8])) if len(case) > 8 else False
     spacing = case[9] if len(case) > 9 else 0
     lines = build(base, sep, doubled, fillers, b1, b2, final, tworows)
-    exp, err, dontcare, states, trans = simulate(lines, sep, offset, 2 if tworows else 1)
+    exp, err, dontcare, states, trans = simulate(lines, sep, offset, 2 if tworows and tworows != "italic" else 1)
     if dontcare:
         return None, states, trans, "dontcare"
     doc = doc_of(lines, sep, spacing)
@@ -291,7 +297,7 @@ def run_shard(d):
                     if "split" in (b1, b2) and not d["doubled"]:
                         continue
                     for final in fset:
-                      for tworows, spacing in (((False, 0), (True, 0)) + ((("long", 0),) if fillers == fill_sets[0] and b1 in ("none", "inline") and b2 in ("none", "inline") else ()) + (((False, 1), (False, 2), (False, 3)) if fillers == fill_sets[1] and offset == offsets_for(base)[0] else ()) if fillers in fill_sets[:2] else ((False, 0),)):
+                      for tworows, spacing in (((False, 0), (True, 0)) + ((("long", 0),) if fillers == fill_sets[0] and b1 in ("none", "inline") and b2 in ("none", "inline") else ()) + ((("italic", 0),) if fillers == fill_sets[0] and b1 in ITALIC_B and b2 in ITALIC_B else ()) + (((False, 1), (False, 2), (False, 3)) if fillers == fill_sets[1] and offset == offsets_for(base)[0] else ()) if fillers in fill_sets[:2] else ((False, 0),)):
                         case = (base, d["sep"], d["doubled"], fillers, b1, b2, final, offset, tworows, spacing)
                         v, states, trans, outcome = evaluate(case)
                         allstates.update(states)
@@ -302,7 +308,7 @@ def run_shard(d):
                         acc.traces += 1
                         acc.case(case, True, outcome, {"base_timecode": base, "separator": d["sep"], "doubled": d["doubled"], "filler_words": fillers, "boundaries": [b1, b2], "final": final, "offset_s": offset, "two_non_adjacent_rows_per_caption": tworows, "blank_spacing_variant": spacing})
                         for sig, det in v:
-                            acc.violation(sig + (("/hundred-word-lines" if tworows == "long" else "/two-rows") if tworows else "") + (("/crlf-line-ends" if spacing == 3 else "/extra-blanks-between-code-words") if spacing else ""), {"case": list(case)}, det)
+                            acc.violation(sig + ({"long": "/hundred-word-lines", "italic": "/italic-text"}.get(tworows, "/two-rows") if tworows else "") + (("/crlf-line-ends" if spacing == 3 else "/extra-blanks-between-code-words") if spacing else ""), {"case": list(case)}, det)
     res = acc.result()
     res["extra"] = {"state_hashes": sorted(allstates)}
     return res
@@ -320,8 +326,8 @@ def replay(case):
     if case.get("reuse"):
         return shared.replay(reuse_items(), reuse_eval, case["index"], between=reuse_between)
     c = case["case"]
-    tw = (c[8] if c[8] == "long" else bool(c[8])) if len(c) > 8 else False
+    tw = (c[8] if c[8] in ("long", "italic") else bool(c[8])) if len(c) > 8 else False
     sp = c[9] if len(c) > 9 else 0
     c = (tuple(c[0]), c[1], c[2], tuple(c[3]), c[4], c[5], c[6], c[7], tw, sp)
     v, _, _, _ = evaluate(c)
-    return [{"sig": s + (("/hundred-word-lines" if tw == "long" else "/two-rows") if tw else "") + (("/crlf-line-ends" if sp == 3 else "/extra-blanks-between-code-words") if sp else ""), "detail": d} for s, d in (v or [])]
+    return [{"sig": s + ({"long": "/hundred-word-lines", "italic": "/italic-text"}.get(tw, "/two-rows") if tw else "") + (("/crlf-line-ends" if sp == 3 else "/extra-blanks-between-code-words") if sp else ""), "detail": d} for s, d in (v or [])]
